@@ -21,15 +21,14 @@ LEVEL_TEXT = ("Proof (P): standby_prefix, standby_rejects, transition_no_loss, c
 LEVEL_NOTE = ("Trusted: Coq kernel, Go harness + Python glue. Modelled, not verified: the commithook goroutine, controller waits and gRPC replication service "
               "(abstracted to CReplicateOk/Fail, CAck, CTransition), the pull/fetch machinery (C35), SQL engine. Roots and commits are opaque identifiers; "
               "that a newer root contains the earlier acknowledged writes is the commit-graph property C19/C35.")
-REFUTED = ["push_on_write_present on the real hook after a failed first attempt (DynamicPushOnWriteHook records the remote before the destination opens): reproduced by the correspondence run, "
-           "known finding replication.DynamicPushOnWriteHook:remote-recorded-before-destdb-opens; the model does not reproduce the wedge (those cases are reported through the oracle)"]
 THEOREMS = ["standby_prefix", "standby_rejects", "transition_no_loss", "caught_up_converges", "replica_heads_real", "push_on_write_present"]
 RULE = ("sequences of 4-10 steps: commit on main or on one of two side branches (created on first use) with push-on-write, read-replica transaction starts "
         "(pull), and remote outages (break / fix) during which commits and pulls happen; non-trivial = at least one commit followed later by a pull; distinct by step list")
 ASSUMPTIONS = ["remote outages are injected by replacing the file:// remote directory with a regular file (pushes and pulls fail) with @@dolt_skip_replication_errors=1; "
+               "regression (fb3d2cc): when the first commit after the variable is set fails to reach the remote and the remote recovers, later commits must be pushed (the oracle demands it); "
                "the failed push is reported on the server's output/log ('error pushing: ...'), not as a SQL warning of the committing session — the oracle does not require a SQL warning",
                "the replica is observed only when it starts a transaction (it cannot be read through SQL without pulling)"]
-REQUIRED_TAGS = ["commit-push-failed", "pull-failed", "commit-main", "commit-branch", "pull", "pull-after-commit", "new-branch-replicated"]
+REQUIRED_TAGS = ["reg-recovers-after-first-push-failed", "commit-push-failed", "pull-failed", "commit-main", "commit-branch", "pull", "pull-after-commit", "new-branch-replicated"]
 HARNESS_TIMEOUT = 1500
 
 
@@ -116,7 +115,7 @@ def classify(case, out):
             if broken:
                 t.add("commit-push-failed")
             if _wedged(case):
-                t.add("hook-wedged-after-first-failure")
+                t.add("reg-recovers-after-first-push-failed")
             seen_commit = True
         else:
             if broken:
@@ -153,6 +152,4 @@ def _wedged(case):
 
 
 def match_known(finding, case, out):
-    if finding.get("key") == "replication.DynamicPushOnWriteHook:remote-recorded-before-destdb-opens":
-        return _wedged(case)
     return False
